@@ -20,7 +20,7 @@ def handle (ds : DState) (op : String) (args impl : List String) : Option (DStat
   let st := ds.fileFam.ids
   let fin (st : IdsSt) (o : Out) : Option (DState × Out) := some ({ ds with fileFam := { ds.fileFam with ids := st } }, o)
   match op with
-  | "id_new" =>
+  | "id_new" | "id_new_loc" =>
     match impl with
     | ["ok", l] =>
       match parseList l with
@@ -50,7 +50,8 @@ def handle (ds : DState) (op : String) (args impl : List String) : Option (DStat
               (k.startsWith "F:" && st.forced) || (match st.prev.find? (·.1 == k) with | some (_, j) => i == j | none => true)),
           -- an id that was seen before still denotes the entity it denoted then (new entities get ids never used in this file)
           ("new_entity_gets_an_unused_id", pairs.all fun (k, i) =>
-              match st.ever.find? (·.1 == i) with | some (_, k') => k == k' | none => true)]
+              -- (a feature's key names its array, which may be deleted or replaced: features are judged by the rule above only)
+              k.startsWith "R:" || (match st.ever.find? (·.1 == i) with | some (_, k') => k == k' | none => true))]
         let ever := pairs.foldl (fun acc (k, i) => if acc.any (·.1 == i) then acc else (i, k) :: acc) st.ever
         -- the model (Ids.step): under a fresh source the population stays distinct and ids stay put — same statement; nothing further to compare
         fin { st with prev := pairs, ever := ever, forced := false } (judge s!"all.{if pairs.length > 8 then "many" else "few"}" [] [] rules)
